@@ -34,6 +34,17 @@ CLAIMED["C11"] = ("model_checking",
     "TLA+ spec at atomic-access granularity + TLC (safety, liveness, negative controls); TLC schedules replayed into the real code; recorded traces validated by TLC against a property-layer trace spec; memory orders extracted from traces parametrise the model",
     "QS", "5 C11")
 
+CLAIMED["C09"] = ("model_checking",
+    "Radix.tla is the abstract map (present keys, insertion generations, set of ever-inserted keys = tree structure). "
+    "TLC explores its complete graph for 5-6 keys; every transition is replayed on the real rcu_radixtree under "
+    ">=16 embeddings of the key ids into 64-bit keys (each nibble position, including the most significant, is a "
+    "first-difference position; same-leaf neighbours; 0 and 2^64-1), plus random histories over clustered random "
+    "universes. After every call the trace carries find() of every key of the universe and the full iteration; "
+    "RadixTrace.tla accepts a call only if results, all lookups, address stability and ascending exact iteration agree.",
+    "bounds: 5-6 key ids, <=2 insertions per key in the exhaustive part; keys beyond the embeddings are sampled; single-threaded (C10 covers readers)",
+    "TLA+ abstract map spec + TLC exhaustive graph; every transition replayed into the real tree under key embeddings; traces validated by TLC against the trace spec",
+    "Radix", "5 C09")
+
 NOT_YET = "check not built yet in this round (see DESIGN.md build order); not claimed until its TLA+ spec and conformance harness exist"
 
 checks, na = [], []
